@@ -34,6 +34,9 @@ def main():
                     help="preliminary run: patch a scratch worktree and point the check at it with FCV_REPO "
                          "(does not touch /repo, does not update meta.json's check_results)")
     ap.add_argument("--verify-only", action="store_true", help="confirm the seed in a scratch worktree only; do not touch /repo")
+    ap.add_argument("--no-clean-rerun", action="store_true",
+                    help="do not re-run the check on the reverted tree afterwards (the caller restores the evidence "
+                         "with one clean run of all checks at the end of a batch)")
     ap.add_argument("--tier", default="quick")
     ap.add_argument("--extra-props", default="", help="comma separated: also run these properties' checks")
     args = ap.parse_args()
@@ -112,6 +115,8 @@ def main():
         sh(["git", "-C", "/repo", "checkout", "--", "."])
     # restore evidence of the clean tree for the checks we just ran (evidence must describe the unchanged tree)
     for prop in results:
+        if args.no_clean_rerun:
+            continue
         rc, out = sh([PY, os.path.join(VERIF, "harness", "vcheck.py"), prop, "--tier", "quick"], cwd=VERIF)
         results[prop]["clean_rerun_exit"] = rc
     meta["check_results"] = results
